@@ -23,7 +23,7 @@ RULE = (
 ASSUMPTIONS = ["hyper-parameter gradients are compared with Richardson central differences of the real builder at 1e-6 of the matrix scale"]
 TIMEOUT = {"quick": 300, "thorough": 1800}
 REQUIRED = {"post:covariance_and_gradients": 100, "cases:cp3plus": 20, "cases:d>=2": 50, "cases:sum": 30,
-            "post:mean_and_gradients": 30, "gradient_entries_checked": 500}
+            "post:mean_and_gradients": 30, "gradient_entries_checked": 500, "operand_reuse_checks": 20}
 
 
 def jobs(tier, seed):
@@ -184,6 +184,26 @@ def run_job(job, rec):
                 okb = len(got_b) == npar and all(
                     np.allclose(np.asarray(a, float), np.asarray(b, float), rtol=1e-13, atol=0) for a, b in zip(got_b[: len(want)], want))
                 rec.check(okb, "bounds-not-concatenated", lambda: f"{desc}: bounds {got_b} do not start with the components' bounds {want}", rec.context)
+
+        # ---- `+` builds a new object and leaves its operands as they were (a composite reused as an operand)
+        if c % 3 == 0:
+            k1, k2, k3, k4 = C.SquaredExponential(), C.WhiteNoise(), C.RationalQuadratic(), C.SquaredExponential()
+            base = k1 + k2
+            s1 = base + k3
+            s2 = base + k4
+            s3 = k3 + base
+            rec.count("operand_reuse_checks")
+            okc = [len(getattr(o, "components", [])) for o in (base, s1, s2, s3)] == [2, 3, 3, 3]
+            if okc:
+                for o in (base, s1, s2):
+                    o.pass_spatial_data(x)
+                tb = G.random_theta(("SUM", [("SE",), ("WN",)]), rng, x)
+                vb = guarded(base.build_covariance, tb)
+                okc = (not isinstance(vb, Raised)) and base.n_params == d + 2 and s1.n_params == 2 * d + 4 and s2.n_params == 2 * d + 3 \
+                    and bool(np.allclose(vb, R.data_cov(("SUM", [("SE",), ("WN",)]), x, tb) , rtol=1e-9, atol=1e-9 * np.abs(vb).max()))
+            rec.check(okc, "operand-modified-by-add",
+                      "a composite used as an operand of + was modified (base = A + B; base + C; base + D): component counts "
+                      f"{[len(getattr(o, 'components', [])) for o in (base, s1, s2, s3)]}", rec.context)
 
         # ---- mean functions
         name = str(rng.choice(G.MEANS))
